@@ -1013,6 +1013,13 @@ func (bc *BlockChain) WriteBlockWithState(block *types.Block, receipts []*types.
 	if reorg {
 		// Reorganise the chain if the parent is not the head block
 		if block.ParentHash() != currentBlock.Hash() {
+			// reorg makes this block the head: its header, body and receipts must
+			// be on disk before the head pointer can name it, or a crash in
+			// between leaves a head that does not exist
+			if err := batch.Write(); err != nil {
+				return NonStatTy, err
+			}
+			batch.Reset()
 			if err := bc.reorg(currentBlock, block); err != nil {
 				return NonStatTy, err
 			}
